@@ -19,10 +19,12 @@ pub struct Knobs {
     pub bad_url_pct: u64,
     pub max_checks: u64,
     pub reboot_pct: u64,
+    pub inject_pct: u64,           // percent of cases with control requests sent between polls
+    pub drop_pct: u64,             // percent of cases that drop all control handles at some wait
 }
 pub fn default_knobs() -> Knobs {
     Knobs { cup: None, oneshot_pct: 15, forged_pct: 10, retry_after_pct: 20, update_pct: 50, faults_pct: 10,
-            weird_storage_pct: 10, clock_jump_pct: 10, bad_url_pct: 3, max_checks: 4, reboot_pct: 50 }
+            weird_storage_pct: 10, clock_jump_pct: 10, bad_url_pct: 3, max_checks: 4, reboot_pct: 50, inject_pct: 25, drop_pct: 5 }
 }
 
 pub fn knobs_for(prop: &str) -> Knobs {
@@ -37,6 +39,7 @@ pub fn knobs_for(prop: &str) -> Knobs {
         "C04" | "C10" => { k.update_pct = 85; }
         "C18" => { k.update_pct = 90; k.reboot_pct = 70; }
         "C05" | "C12" => { k.update_pct = 60; k.reboot_pct = 70; }
+        "C11" => { k.update_pct = 60; k.reboot_pct = 70; k.inject_pct = 90; k.drop_pct = 15; k.oneshot_pct = 0; k.max_checks = 5; }
         _ => {}
     }
     k
@@ -44,7 +47,7 @@ pub fn knobs_for(prop: &str) -> Knobs {
 pub fn runner_for(prop: &str) -> &'static str {
     match prop {
         "C02" => "run_c02", "C04" => "run_c04", "C05" => "run_c05", "C06" => "run_c06", "C07" => "run_c07",
-        "C08" => "run_c08", "C09" => "run_c09", "C10" => "run_c10", "C12" => "run_c12", "C14" => "run_c14",
+        "C08" => "run_c08", "C09" => "run_c09", "C10" => "run_c10", "C11" => "run_c11", "C12" => "run_c12", "C14" => "run_c14",
         "C18" => "run_c18", _ => "run_sm_all",
     }
 }
@@ -200,8 +203,25 @@ pub fn gen_sm(rng: &mut Rng, k: &Knobs) -> Value {
     let reboot: Vec<Value> = (0..rng.below(3)).map(|_| json!(rng.chance(3, 4))).collect();
     let stimuli: Vec<Value> = (0..rng.below(3 * k.max_checks + 1)).map(|_| match rng.below(8) {
         0 => json!({"control": "ondemand"}), 1 => json!({"control": "scheduled"}), 2 => json!({"fire": 1}), 3 => json!({"fire": 2}), _ => json!({"fire": 0}) }).collect();
+    let oneshot = rng.below(100) < k.oneshot_pct;
+    let mut stimuli = stimuli;
+    let mut inject: Vec<Value> = vec![];
+    if !oneshot && rng.below(100) < k.inject_pct {
+        let mut idx = 0u64;
+        for _ in 0..(1 + rng.below(4)) {
+            idx += rng.below(12);
+            inject.push(json!([idx, if rng.chance(1, 2) { "ondemand" } else { "scheduled" }]));
+            idx += 1;
+        }
+    }
+    if !oneshot && inject.is_empty() && rng.below(100) < k.drop_pct {
+        // drop all handles at some wait; no control request is sent afterwards
+        let pos = rng.below(stimuli.len() as u64 + 1) as usize;
+        for s in stimuli.iter_mut().skip(pos) { if s.get("control").is_some() { *s = json!({"fire": 0}); } }
+        stimuli.insert(pos, json!({"drop": true}));
+    }
     let cup = if cup_on { let l = 1 + rng.below(1000); json!({"latest": l, "hist": (0..rng.below(3)).map(|i| l + 1 + i).collect::<Vec<_>>()}) } else { Value::Null };
-    json!({"kind": "sm", "entry": if rng.below(100) < k.oneshot_pct { "oneshot" } else { "start" },
+    json!({"kind": "sm", "entry": if oneshot { "oneshot" } else { "start" }, "inject": inject,
            "config": config, "cup": cup, "apps": apps, "storage": storage,
            "clock0": [base_w.to_string(), base_m.to_string()], "clock": clock, "faults": faults,
            "next_time": next_time, "allowed": allowed, "can_start": can_start, "reboot_needed": reboot_needed,
